@@ -95,6 +95,7 @@ func init() {
 	registry["C07"] = func() Check {
 		return &SeqCheck{Prop: "C07",
 			Ideal: famGraph(3, 2, 5), IdealDeep: famGraph(3, 2, 7), IdealProps: []string{"P_C07"},
+			Proc: &ProcCheck{Prop: "C07", Scenarios: "SeqScenarios", IdealInvs: []string{"Serializable"}, Only: []string{"C07_final"}},
 			GenQuick: famGraph(3, 1, 4), GenThorough: famGraph(3, 2, 6), SampleQuick: 120,
 			Sim: with(famGraph(4, 2, 14), func(m *SeqModel) { m.Extras = append(m.Extras, "chains", "badid") }), SimNumQuick: 60, SimNumThorough: 2000}
 	}
@@ -108,6 +109,7 @@ func init() {
 	registry["C09"] = func() Check {
 		return &SeqCheck{Prop: "C09",
 			Ideal: famIds(2, 1, 5), IdealDeep: famIds(3, 1, 6), IdealProps: []string{"P_C09"}, IdealInvs: []string{"CodePruneIsSpecPrune"},
+			Proc: &ProcCheck{Prop: "C09", Scenarios: "PruneScenarios", IdealInvs: []string{"Serializable"}, Only: []string{"C09_serial"}},
 			GenQuick: famIds(2, 1, 4), GenThorough: famIds(2, 1, 6), SampleQuick: 100,
 			CraftQuick: famCraft(1200, "prune", "prune_dry"), CraftThorough: famCraft(40000, "prune", "prune_dry"),
 			Sim: famIds(3, 2, 12), SimNumQuick: 60, SimNumThorough: 2000}
@@ -115,6 +117,7 @@ func init() {
 	registry["C10"] = func() Check {
 		return &SeqCheck{Prop: "C10",
 			Ideal: famFull(3), IdealDeep: famFull(4), IdealProps: []string{"P_C10"}, Probes: probeHalf,
+			Proc: &ProcCheck{Prop: "C10", Scenarios: "FailScenarios", IdealInvs: []string{"Serializable"}, Only: []string{"C10_serial"}},
 			GenQuick: famFull(2), GenThorough: famFull(4), SampleQuick: 60,
 			Sim: with(famFull(10), func(m *SeqModel) { m.MaxTasks = 3 }), SimNumQuick: 80, SimNumThorough: 3000}
 	}
@@ -127,6 +130,7 @@ func init() {
 	registry["C14"] = func() Check {
 		return &SeqCheck{Prop: "C14",
 			Ideal: famIds(2, 2, 4), IdealDeep: famIds(3, 2, 6), IdealProps: []string{"P_C14"}, Probes: probeEpicRef,
+			Proc: &ProcCheck{Prop: "C14", Scenarios: "PruneScenarios", IdealInvs: []string{"Serializable"}, Only: []string{"C14_final"}},
 			GenQuick: famIds(2, 1, 4), GenThorough: famIds(2, 2, 6), SampleQuick: 100,
 			Sim: famIds(3, 2, 12), SimNumQuick: 60, SimNumThorough: 2000}
 	}
@@ -139,6 +143,7 @@ func init() {
 	registry["C16"] = func() Check {
 		return &SeqCheck{Prop: "C16",
 			Ideal: famFull(3), IdealDeep: famFull(4), IdealProps: []string{"P_C16"}, Probes: probeHalf,
+			Proc: &ProcCheck{Prop: "C16", Scenarios: "PruneScenarios", IdealInvs: []string{"Serializable"}, Only: []string{"C16_prune_truth"}},
 			GenQuick: famFull(2), GenThorough: famFull(4), SampleQuick: 60,
 			Sim: with(famFull(10), func(m *SeqModel) { m.MaxTasks = 3 }), SimNumQuick: 80, SimNumThorough: 3000}
 	}
